@@ -15,8 +15,11 @@ open Munge.Cred Munge.Cred.C Munge.Gen.Dec
 theorem request_carries_no_identity (req : Bytes) :
     (∀ m, recvMsg req = .enc m → m.clientUid = 0 ∧ m.clientGid = 0 ∧ m.credUid = 0 ∧ m.credGid = 0) ∧
     (∀ m, recvMsg req = .dec m → m.clientUid = 0 ∧ m.clientGid = 0 ∧ m.credUid = 0 ∧ m.credGid = 0) := by
-  constructor <;> intro m h <;> unfold recvMsg at h <;> dsimp only at h <;>
-  (repeat' split at h) <;> (cases h <;> simp)
+  constructor <;> intro m h <;> unfold recvMsg at h <;> dsimp only at h <;> (repeat' split at h) <;>
+  first
+  | contradiction
+  | (cases h <;> simp)
+  | (unfold recvHdrBody at h; dsimp only at h; (repeat' split at h) <;> first | contradiction | (cases h <;> simp))
 
 /-- the inner layer of the credential built for request `m` under environment `env`, before compression
     and encryption, and the offset at which the 32-bit UID and GID sit in it (salt, addr_len, addr,
